@@ -62,7 +62,7 @@ def spec1d_case(draw, layouts=LAYOUTS, min_nf=2, max_nf=40, kinds=VALUE_KINDS,
         e = expand_values(seed, kind, n, nf, None, f, mag)
     rng = np.random.default_rng(seed ^ 0x5BD1E995)
     # moments inside the unit disc: radius and angle
-    mkind = draw(st.sampled_from(["any", "seam180", "seam0", "small"])) if moments == "disc" else "any"
+    mkind = draw(st.sampled_from(["any", "any", "seam180", "seam0", "small", "beam"])) if moments == "disc" else "any"
     if mkind == "seam180":
         ang = np.pi + rng.uniform(-0.05, 0.05, size=(n, nf))
     elif mkind == "seam0":
@@ -70,6 +70,9 @@ def spec1d_case(draw, layouts=LAYOUTS, min_nf=2, max_nf=40, kinds=VALUE_KINDS,
     else:
         ang = rng.uniform(-np.pi, np.pi, size=(n, nf))
     r = rng.uniform(0.0, 0.999, size=(n, nf)) * (0.05 if mkind == "small" else 1.0)
+    if mkind == "beam":
+        # very narrow but not perfectly unidirectional seas: radius 1 - 10^-u, u in [3, 7.5] (spread 2.5 deg .. 0.014 deg)
+        r = 1.0 - 10.0 ** (-rng.uniform(3.0, 7.5, size=(n, nf)))
     a1 = r * np.cos(ang)
     b1 = r * np.sin(ang)
     ang2 = rng.uniform(-np.pi, np.pi, size=(n, nf))
